@@ -574,3 +574,10 @@ Proof.
     + apply Nat.eqb_neq in Eij. rewrite server_read_other by exact Eij. reflexivity.
 Qed.
 End Faults.
+
+(* ---------- bytes returned together with a deadline error are bytes ---------- *)
+Theorem conn_run_ev_eq handler events : conn_run_ev handler events = conn_run handler (map fst events).
+Proof.
+  unfold conn_run_ev, conn_run. generalize conn_init.
+  induction events as [|ev events IH]; intros c; cbn [fold_left map]; [reflexivity|]. apply IH.
+Qed.
